@@ -301,8 +301,16 @@ class Compound(Command, UserList):
         return all(command.can_execute for command in self)
 
     def execute(self):
-        for command in self:
-            command.execute()
+        executed = []
+        try:
+            for command in self:
+                command.execute()
+                executed.append(command)
+        except Exception:
+            # no partial effect: the members already run are taken back
+            for command in reversed(executed):
+                command.undo()
+            raise
 
     @property
     def can_undo(self):
